@@ -58,7 +58,7 @@ static void wlRWLock() {
   bool useUpgrade = chance(1, 3);
   sim_note("threads", nThreads);
   sim_note("upgrade", useUpgrade);
-  std::unique_ptr<dispenso::RWLock> lockOwner(new dispenso::RWLock()); // heap: store-buffer fault
+  auto lockOwner = hx::heapNew<dispenso::RWLock>(); // heap: store-buffer fault
   dispenso::RWLock& lock = *lockOwner;
   std::vector<std::vector<int>> plans((size_t)nThreads);
   for (int t = 0; t < nThreads; ++t) {
@@ -166,8 +166,8 @@ static void distributedRun(bool publicClass) {
   sim_note("threads", nThreads);
   sim_note("slots", (int64_t)N);
   sim_note("public", publicClass);
-  std::unique_ptr<dispenso::detail::DistributedRWLockImpl<N>> implOwner(new dispenso::detail::DistributedRWLockImpl<N>());
-  std::unique_ptr<dispenso::DistributedRWLock<N>> pubOwner(new dispenso::DistributedRWLock<N>()); // heap: store-buffer fault
+  auto implOwner = hx::heapNew<dispenso::detail::DistributedRWLockImpl<N>>();
+  auto pubOwner = hx::heapNew<dispenso::DistributedRWLock<N>>(); // heap: store-buffer fault
   dispenso::detail::DistributedRWLockImpl<N>& impl = *implOwner;
   dispenso::DistributedRWLock<N>& pub = *pubOwner;
   struct Step {
@@ -328,7 +328,7 @@ static void wlAsyncRequest() {
   int nProd = range(1, 3);
   sim_note("consumers", nCons);
   sim_note("producers", nProd);
-  std::unique_ptr<dispenso::AsyncRequest<Val>> reqOwner(new dispenso::AsyncRequest<Val>()); // heap: store-buffer fault
+  auto reqOwner = hx::heapNew<dispenso::AsyncRequest<Val>>(); // heap: store-buffer fault
   dispenso::AsyncRequest<Val>& req = *reqOwner;
   struct Hist {
     int requestsInvoked = 0;
